@@ -696,8 +696,15 @@ def _run_one(scratch, stats, markers, q, cfg, tag, cache=None):
     if qpath.exists():
         qpath.unlink()
     X = np.array(q['X'], dtype=np.dtype(q.get('dtype', 'float64')))
-    pipeline.write_h5ad(qpath, X, q['cell_ids'], q['genes'],
-                        encoding=q.get('encoding', 'dense'))
+    if q.get('perm_on_csr') is not None:
+        # the columns are permuted ON the csr matrix: the file keeps each
+        # row's column indices out of order (legal CSR; what scipy
+        # X[:, perm] / adata[:, genes].copy() produce)
+        U.write_h5ad_csr_permuted(qpath, X, q['perm_on_csr'], q['cell_ids'],
+                                  q['genes'])
+    else:
+        pipeline.write_h5ad(qpath, X, q['cell_ids'], q['genes'],
+                            encoding=q.get('encoding', 'dense'))
     config = pipeline.mapping_config(
         qpath, stats, markers, out, tmp,
         n_processors=cfg.get('n_processors', 2),
@@ -1034,6 +1041,26 @@ def gen_pipeline_cases(ctx, rng, i):
     out.append(case('extra-genes', base_log,
                     q(np.stack(cols, axis=1), gx, 'log2CPM', enc2), c3,
                     nontrivial=bool(drop) or n_add > 0))
+    # c'. gene permutation of a csr query WITHOUT implicit zeros whose
+    # columns were permuted on the sparse matrix (unsorted column indices in
+    # every row); raw and normalised alternate
+    Xf = X + 1.0
+    permc = list(range(g))
+    for _ in range(10):
+        rng.shuffle(permc)
+        if permc != sorted(permc):
+            break
+    gpc = [genes[j] for j in permc]
+    c5 = cfg(round(rng.uniform(0.3, 0.95), 2))
+    if i % 2 == 0:
+        vq = q(Xf, gpc, 'raw', 'csr')
+        bq = q(Xf, genes, 'raw', 'csr')
+    else:
+        vq = q(log2cpm(Xf), gpc, 'log2CPM', 'csr')
+        bq = q(log2cpm(Xf), genes, 'log2CPM', 'csr')
+    vq['perm_on_csr'] = permc
+    out.append(case('gene-permutation', bq, vq, c5,
+                    nontrivial=permc != list(range(g))))
     # d'. WIDE queries: the reference has <= 255 genes, the query 300-600
     # columns, with the markers beyond column 255 (query column positions
     # need a wider integer type than reference positions)
